@@ -3,7 +3,7 @@
 # runs seeded changes against the check of the property they break, several at a time: every worker has its own scratch worktree of
 # /repo under /tmp (VERIF_REPO), its own evidence directory; /repo itself is not touched. Worktrees are removed at the end.
 W="$1"; LOG="$2"; shift 2
-cd /verif
+cd "$(dirname "$0")"; HERE="$PWD"
 export VERIF_KEEP_BUILDS=60          # several trees are built and used side by side: no eviction while this runs
 : > "$LOG"
 ids=("$@")
@@ -16,9 +16,9 @@ worker() {
     if [ $((i % W)) -eq "$k" ]; then
       d="seeded/$id"
       prop=$(python3 -c "import json; print(json.load(open('$d/meta.json'))['breaks_property'])")
-      if git -C "$wt" apply "/verif/$d/patch.diff" 2>/dev/null; then
+      if git -C "$wt" apply "$HERE/$d/patch.diff" 2>/dev/null; then
         mkdir -p /verif/.cache/mx-out
-        out=$(VERIF_REPO="$wt" VERIF_EVIDENCE_DIR=/verif/.cache/evidence-mx-$k timeout 3000 ./check "$prop" 2>&1); code=$?
+        out=$(VERIF_REPO="$wt" VERIF_EVIDENCE_DIR=$HERE/.cache/evidence-mx-$k timeout 3000 ./check "$prop" 2>&1); code=$?
         echo "$out" | tail -40 > /verif/.cache/mx-out/$id.log
         echo "$id breaks=$prop :: == $prop exit=$code :: $(echo "$out" | grep -c '^VIOLATION') violations :: $(echo "$out" | grep '^BROKEN' | head -1 | cut -c1-200)" >> "$LOG"
       else
@@ -34,5 +34,5 @@ for k in $(seq 0 $((W - 1))); do worker "$k" & done
 wait
 git -C /repo worktree prune
 # back to the usual number of cached builds
-ls -dt /verif/.cache/b-* 2>/dev/null | tail -n +5 | xargs -r rm -rf
+ls -dt "$HERE"/.cache/b-* 2>/dev/null | tail -n +5 | xargs -r rm -rf
 sort "$LOG" -o "$LOG"
